@@ -150,7 +150,9 @@ def run(ctx):
                 continue
             accs.setdefault(nm, []).append(c)
         for nm, cs in sorted(accs.items()):
-            check_consumer(ctx, F, parent, nm, cfn)
+            sorted_acc = check_consumer(ctx, F, parent, nm, cfn)
+            if sorted_acc:
+                check_sort_key(ctx, F, cb, nm, cfn)
     ctx.extra["parallel_closures"] = [F.canon_of(F.bodies[x[2]]) for x in par]
     ctx.sample({"parallel closure": ctx.extra["parallel_closures"], "configurations": ["default", "nodefault"]})
 
@@ -169,7 +171,7 @@ def check_consumer(ctx, F, parent, acc, cfn):
     ii = [c for c in parent.calls if re.search(r"sync::Mutex::<T>::into_inner$", c.fn or "") and root(c.args[0]) == l]
     if len(ii) != 1:
         ctx.finding(R, "accumulator|%s|%s" % (pfn, acc), "accumulator %s is not consumed through exactly one Mutex::into_inner after the parallel phase" % acc, parent.where())
-        return
+        return False
     # follow the value to its into_iter / sort
     val = ii[0].dest["l"]
     chain = [val]
@@ -199,11 +201,30 @@ def check_consumer(ctx, F, parent, acc, cfn):
                 frontier.append(u["stmt"]["lhs"]["l"])
     if not iters:
         ctx.finding(R, "accumulator|%s|%s" % (pfn, acc), "cannot find where accumulator %s is consumed" % acc, parent.where(ii[0].ln))
-        return
+        return False
+    was_sorted = False
     for it in iters:
         sorted_first = any(parent.dominates(s.bb, it.bb) for s in sorts)
         if sorted_first:
+            was_sorted = True
             ctx.ob(R, "accumulator|%s|%s" % (pfn, acc), True, "%s is sorted before it is iterated: completion order is normalised to the sequential (key) order" % acc, parent.where(it.ln))
+            # the sort key must be the block tag (field 0 of the element)
+            for s in sorts:
+                kc = closure_of_operand(parent, s.args[-1]) if len(s.args) > 1 else None
+                okk = False
+                if kc:
+                    kb = F.bodies.get(kc[0])
+                    if kb is not None:
+                        rets = [st for bi, si, st in kb.stmts() if "lhs" in st and st["lhs"]["l"] == 0 and not st["lhs"]["p"]]
+                        for st in rets:
+                            rp = op_place(st["rv"]["o"]) if st["rv"]["k"] == "use" else None
+                            if rp is not None:
+                                rp = kb.root_place(rp, through_names=True)
+                                flds = [e for e in rp["p"] if isinstance(e, dict) and "f" in e]
+                                if rp["l"] == kb.argc and flds and flds[0]["f"] == 0:
+                                    okk = True
+                ctx.ob(R, "sort-key-is-tag|%s|%s" % (pfn, acc), okk, "the sort key is the tag stored as element .0", parent.where(s.ln),
+                       what="accumulator %s is sorted by something other than the per-block tag" % acc)
             continue
         # commutative table: the loop over the accumulator may call only the reviewed callee
         com = COMMUTATIVE.get(acc)
@@ -214,6 +235,33 @@ def check_consumer(ctx, F, parent, acc, cfn):
             ctx.finding(R, "accumulator|%s|%s" % (pfn, acc),
                         "accumulator %s is filled in thread-completion order and consumed without sorting by an order-sensitive loop (crate-local calls in the loop: %s)"
                         % (acc, sorted(loop_calls) or "none: direct map insertion"), parent.where(it.ln))
+    return was_sorted
+
+
+def check_sort_key(ctx, F, cb, acc, cfn):
+    """a sort only normalises completion order if its key is unique per block: the tag pushed with each block must be the
+    parallel iterator's own item key (unique by construction of the map / index), not a value parsed from the input."""
+    R = "R-EFF"
+    param = cb.argc            # closures: the last argument is the item
+    pushes = [c for c in cb.calls if re.search(r"Vec::<.*>::(push|extend|insert)$", c.fn or "") and acc in cb.oname(c.args[0], 3)]
+    if not pushes:
+        ctx.finding(R, "sort-key-unique|%s|%s" % (cfn, acc), "no push into %s found in the parallel closure" % acc, cb.where())
+        return
+    for c in pushes:
+        d = cb.def_rv(c.args[1])
+        tag = None
+        if d and d[2] == "rv" and d[3]["k"] == "agg" and d[3]["kind"].get("a") == "tuple" and d[3]["ops"]:
+            tag = d[3]["ops"][0]
+        ok = False
+        how = "?"
+        if tag is not None:
+            p = op_place(tag)
+            if p is not None:
+                p = cb.root_place(p, through_names=True)
+            how = cb.pname(p, 2) if p is not None else "?"
+            ok = p is not None and p["l"] == param
+        ctx.ob(R, "sort-key-unique|%s|%s" % (cfn, acc), ok, "block tag is %s, the parallel iterator's own item key" % how, cb.where(c.ln),
+               what="blocks pushed into %s are tagged with `%s`, which is not the parallel iterator's own (unique) item key: equal tags keep thread-completion order through the stable sort" % (acc, how))
 
 
 def consumer_calls(F, parent, it_call):
